@@ -167,7 +167,10 @@ class Server(object):
         self._check_close_code(reply)
 
     def _encrypt_session(self):
-        if not self.io.encrypt_socket_server(self.context):
+        encrypted = False
+        with Timeout(self.command_timeout, False):
+            encrypted = self.io.encrypt_socket_server(self.context)
+        if not encrypted:
             return False
         self._call_custom_handler('TLSHANDSHAKE')
         self._call_custom_handler('TLSHANDSHAKE2', self.io.socket)
